@@ -187,7 +187,7 @@ package h2
 //@ func (*relay).encodeFull
 //@ property C10
 //@ requires r != nil && r.encoder != nil && r.enableDebugLogs != nil
-//@ modifies pkg(hpack), pkg(bytes), elems(byte)
+//@ modifies pkg(hpack), pkg(bytes), elems(byte), sbStr
 
 // lastData(w): the most recently enqueued element of w is a DATA fragment.
 //@ pred lastData(w *outputBuffer) = qelem(w.queue, qhi(w.queue) - 1).Value is *queuedDataFrame
@@ -230,7 +230,7 @@ package h2
 //@ func (*relay).header
 //@ property C09 C10
 //@ requires r != nil && relayWF(r) && quiescent(r) && frameSizeOK(r) && r.encoder != nil && r.enableDebugLogs != nil
-//@ modifies pkg(hpack), pkg(bytes), elems(byte), elems([]byte), r.outputBuffers[*], outputBuffer.windowSize, r.connectionWindowSize, qlo, qhi, qelem, nsent(r.output), outseq, sentAll(r.output), lastEnq(r)
+//@ modifies pkg(hpack), pkg(bytes), elems(byte), sbStr, elems([]byte), r.outputBuffers[*], outputBuffer.windowSize, r.connectionWindowSize, qlo, qhi, qelem, nsent(r.output), outseq, sentAll(r.output), lastEnq(r)
 //@ ensures relayWF(r) && quiescent(r)
 //@ ensures r.connectionWindowSize + sentAll(r.output) == old(r.connectionWindowSize) + old(sentAll(r.output))
 //@ ensures err == nil ==> lastEnq(r) is *queuedHeaderFrame && lastEnq(r).(*queuedHeaderFrame).streamID == id && lastEnq(r).(*queuedHeaderFrame).endStream == streamEnded && lastEnq(r).(*queuedHeaderFrame).priority == priority
@@ -240,7 +240,7 @@ package h2
 //@ func (*relay).pushPromise
 //@ property C09 C10
 //@ requires r != nil && relayWF(r) && quiescent(r) && frameSizeOK(r) && r.encoder != nil && r.enableDebugLogs != nil
-//@ modifies pkg(hpack), pkg(bytes), elems(byte), elems([]byte), r.outputBuffers[*], outputBuffer.windowSize, r.connectionWindowSize, qlo, qhi, qelem, nsent(r.output), outseq, sentAll(r.output), lastEnq(r)
+//@ modifies pkg(hpack), pkg(bytes), elems(byte), sbStr, elems([]byte), r.outputBuffers[*], outputBuffer.windowSize, r.connectionWindowSize, qlo, qhi, qelem, nsent(r.output), outseq, sentAll(r.output), lastEnq(r)
 //@ ensures relayWF(r) && quiescent(r)
 //@ ensures err == nil ==> lastEnq(r) is *queuedPushPromiseFrame && lastEnq(r).(*queuedPushPromiseFrame).streamID == id && lastEnq(r).(*queuedPushPromiseFrame).promiseID == promiseID
 //@ ensures err == nil ==> len(lastEnq(r).(*queuedPushPromiseFrame).chunks) >= 1 && len(lastEnq(r).(*queuedPushPromiseFrame).chunks[0]) + 4 <= r.maxFrameSize
